@@ -29,7 +29,7 @@ func (c16) Assumptions() []string {
 	return []string{"results of failing calls are not constrained (the property speaks of success)", "inputs are sampled (string tokens with every escape kind, raw invalid UTF-8, documents of all classes)"}
 }
 func (c16) Required(tier string) []string {
-	return []string{"D-dirty", "X-overwrite", "dst-grew", "dst-fit-exactly", "escape-with-dirty-dst", "scratch-reused-by-later-call", "failing-call-input-checked", "tree-snapshot-rechecked", "dst-ends-mid-sequence-input-starts-with-continuation", "empty-container-returned-then-reader-reused", "earlier-input-rechecked", "M-guard", "thousands-of-never-seen-field-names", "long-token-appended-to-dirty-dst", "argument-tree-mutated-after-StdLibCompatible-copy"}
+	return []string{"D-dirty", "X-overwrite", "dst-grew", "dst-fit-exactly", "escape-with-dirty-dst", "scratch-reused-by-later-call", "failing-call-input-checked", "tree-snapshot-rechecked", "dst-ends-mid-sequence-input-starts-with-continuation", "empty-container-returned-then-reader-reused", "earlier-input-rechecked", "M-guard", "thousands-of-never-seen-field-names", "long-token-appended-to-dirty-dst", "argument-tree-mutated-after-StdLibCompatible-copy", "G-gc"}
 }
 
 var dstPrefixLens = []int{0, 1, 5, 37}
@@ -237,6 +237,9 @@ func (c16) Gen(r *Rand, sc *Scenario, tier string) {
 		ops = append(ops, op)
 	}
 	sc.Tasks = [][]Op{ops}
+	if r.Chance(1, 30) && len(ops) <= 12 {
+		sc.Cfg["gc-between-calls"] = 1
+	}
 }
 
 // forcedCopy returns a string that shares no memory with s.
@@ -308,6 +311,7 @@ func (c16) Exec(sc *Scenario, st *Stats) *Violation {
 	reader := &rjson.ValueReader{}
 	tg := &targets{}
 	for oi, op := range sc.Tasks[0] {
+		gcBetween(sc, st, oi)
 		d := sc.Docs[op.Doc]
 		viol := func(class, detail string) *Violation {
 			return &Violation{Class: class, Task: 0, Op: oi, Sig: "C16/" + class + "/" + op.Kind,
